@@ -5,7 +5,8 @@ from .extract import parse_items, sub_items, norm
 
 
 class Locator:
-    def __init__(self, text):
+    def __init__(self, text, path=None):
+        self.path = path
         self.text = text
         self.lines = text.split('\n')
         self.spans = []  # (start_line, end_line, container, fn, container_kind)
@@ -39,15 +40,30 @@ class Locator:
 
     def name_failure(self, fail):
         """fail: dict(kind, line, text) from classify_verus -> obligation name + clause text."""
-        lines = [int(x) for x in re.findall(r'^\s*(\d+)\s*\|', fail['text'], re.M)]
-        if fail.get('line'):
+        # gutter line numbers belong to the file named by the closest preceding `-->` / `:::` marker
+        lines = []
+        cur_file = None
+        primary_in_unit = True
+        for ln in fail['text'].split('\n'):
+            m = re.match(r'\s*(?:-->|:::)\s*([^:\s]+):(\d+):(\d+)', ln)
+            if m:
+                cur_file = m.group(1)
+                continue
+            m = re.match(r'^\s*(\d+)\s*\|', ln)
+            if m and (cur_file is None or self.path is None or cur_file.endswith(self.path.split('/')[-1])):
+                lines.append(int(m.group(1)))
+        if fail.get('file') and self.path and not fail['file'].endswith(self.path.split('/')[-1]):
+            primary_in_unit = False
+        if fail.get('line') and primary_in_unit:
             lines.insert(0, fail['line'])
         hits = [self.at(l) for l in lines]
         hits = [h for h in hits if h]
         impl_hits = [h for h in hits if h[2] in ('impl', 'fn')]
         pick = impl_hits[0] if impl_hits else (hits[0] if hits else ('?', '?', '?'))
         clause = ''
-        if fail.get('line') and 0 < fail['line'] <= len(self.lines):
+        if not primary_in_unit:
+            clause = 'contract of the std trait method (vstd %s:%s)' % (fail.get('file'), fail.get('line'))
+        elif fail.get('line') and 0 < fail['line'] <= len(self.lines):
             clause = self.lines[fail['line'] - 1].strip().rstrip(',')
         cont = pick[0] or 'fn'
         name = '%s :: %s :: %s :: %s' % (cont, pick[1], fail['kind'], clause)
